@@ -132,6 +132,7 @@ fn exercise_inner(bytes: &[u8]) -> Result<Report, String> {
     // ---- seekable reader, with I/O budget and memory measurement while opening
     let budget = 4 * ops_bound(len);
     let st: Arc<FaultState> = FaultState::new(budget, true, false);
+    st.hard_limit.store(1_000_000, std::sync::atomic::Ordering::Relaxed);
     let stc = st.clone();
     let (r, peak) = alloc::measure(1 << 32, move || catch(move || zip::ZipArchive::new(FaultIo::new(Cursor::new(bytes), stc))));
     let opened = r.map_err(|p| format!("PANIC in ZipArchive::new: {p}"))?;
@@ -187,6 +188,7 @@ fn exercise_inner(bytes: &[u8]) -> Result<Report, String> {
     for mode in 0..3u8 {
         let n = catch(|| {
             let st = FaultState::new(8 * ops_bound(len), true, false);
+            st.hard_limit.store(1_000_000, std::sync::atomic::Ordering::Relaxed);
             let mut src = NoSeek(FaultIo::new(Cursor::new(bytes), st.clone()));
             let mut n = 0u32;
             loop {
@@ -227,6 +229,7 @@ fn exercise_inner(bytes: &[u8]) -> Result<Report, String> {
     // ---- open for append, then finish / drop
     for by_drop in [false, true] {
         let st: Arc<FaultState> = FaultState::new(4 * ops_bound(len), true, false);
+        st.hard_limit.store(1_000_000, std::sync::atomic::Ordering::Relaxed);
         let stc = st.clone();
         let data = bytes.to_vec();
         let (r, peak) = alloc::measure(1 << 32, move || catch(move || zip::ZipWriter::new_append(FaultIo::new(crate::sio::BoundedSink::new(data, 1 << 20), stc))));
